@@ -17,31 +17,15 @@ import (
 
 // crashSite is one construct of the generator that can raise a Go panic.
 type crashSite struct {
-	Key  string // "<pkg>.<func>:<kind>:<detail>"
-	Pos  token.Pos
-	Kind string
-	What string
-	Func string
-	Pkg  string
-}
-
-// crashReasons is the frozen table "this site cannot fire, because …" (one line of reason per entry;
-// entries with a side condition name the machine check that re-validates it on every run).
-var crashReasons = map[string]struct{ reason, side string }{
-	"builder.writeStaticCode:must:template.Must":           {"the template text is a constant that parses and executes for all 32 parameter vectors", "variants"},
-	"builder.writeStaticCode:must:regexp.MustCompile#1":    {"constant pattern; the checker compiles the same literal", "variants"},
-	"builder.writeStaticCode:must:regexp.MustCompile#2":    {"constant pattern; the checker compiles the same literal", "variants"},
-	"builder.writeStaticCode:panic#1":                      {"template execution error: excluded by the 32-variant instantiation", "variants"},
-	"builder.writeStaticCode:panic#2":                      {"bytes.Buffer.WriteString never returns an error", ""},
-	"ast.Walk:panic#1":                                     {"default of the kind switch: every expression kind and Grammar/Rule has a case", "walk-exhaustive"},
-	"main.main:assert:g.(*ast.Grammar)":                    {"the start rule Grammar's action returns *ast.Grammar and ParseReader returned no error", "grammar-action"},
-	"builder.rangeTable:panic#1":                           {"class names reaching the builder were accepted by the front-end against unicodeClasses, every entry of which is a key of the unicode tables", "unicode-classes"},
-	"main.main:panic#1":                                    {"re-raises a panic that is already in flight (guarded by r := recover(); r != nil); it cannot originate one", "repanic"},
-	"main.toAnySlice:assert:v.([]any)":                     {"called only from grammar actions, which run under the front-end parser's recover handler (C13-c)", "actions-only"},
-	"builder.ComputeLeftRecursives:mapderef:rules[name]#1": {"name ranges over an SCC with more than one vertex; only defined rules have out-edges in the first-graph, so every member is a key of rules", "firstgraph"},
-	"builder.ComputeLeftRecursives:mapderef:rules[leader]": {"findLeader returns a member of that SCC", "firstgraph"},
-	"builder.ComputeLeftRecursives:mapderef:rules[name]#2": {"guarded by graph[name][name]: only defined rules have out-edges", "firstgraph"},
-	"builder.ComputeLeftRecursives:mapderef:rules[name]#3": {"guarded by graph[name][name]: only defined rules have out-edges", "firstgraph"},
+	Key    string // "<pkg>.<func>:<kind>:<detail>"
+	Pos    token.Pos
+	Kind   string
+	What   string
+	Func   string
+	Pkg    string
+	Suffix string // package selector for load.G.Pkg
+	Node   ast.Node
+	Fd     *ast.FuncDecl
 }
 
 // nonExprPanics: the NullableVisit/IsNullable/InitialNames methods of the non-expression node types.
@@ -71,9 +55,8 @@ func C13(c *Ctx) {
 	sites := enumerateCrashSites(c, g)
 	r.Analysed["crash_sites"] = len(sites)
 	side := c13SideConditions(c, g)
-	seen := map[string]bool{}
+	classes := map[string]int{}
 	for _, s := range sites {
-		seen[s.Key] = true
 		construct := "G." + s.Key
 		if s.Kind == "nonexpr" {
 			if side["nonexpr"] == "" {
@@ -89,20 +72,26 @@ func C13(c *Ctx) {
 				continue
 			}
 		}
-		rs, ok := crashReasons[s.Key]
-		if !ok {
+		class, reason, sideName := semanticCrashReason(c, g, s)
+		if class == "" {
 			r.Bad("C13-a", construct, "", g.Where(s.Pos), s.What+": reachable from main with no reason why it cannot fire")
 			continue
 		}
-		if rs.side != "" && side[rs.side] != "" {
-			r.Bad("C13-a", construct, "", g.Where(s.Pos), "listed as impossible ("+rs.reason+") but its side condition fails: "+side[rs.side])
+		classes[class]++
+		if strings.HasPrefix(sideName, "!") {
+			r.Bad("C13-a", construct, "", g.Where(s.Pos), s.What+": "+sideName[1:])
 			continue
 		}
-		r.Ok("C13-a", construct, "", g.Where(s.Pos), "impossible: "+rs.reason)
+		if sideName != "" && side[sideName] != "" {
+			r.Bad("C13-a", construct, "", g.Where(s.Pos), "listed as impossible ("+reason+") but its side condition fails: "+side[sideName])
+			continue
+		}
+		r.Ok("C13-a", construct, "", g.Where(s.Pos), "impossible: "+reason)
 	}
-	for k := range crashReasons {
-		if !seen[k] {
-			r.Fatal("crash-site table entry %s no longer matches any construct (anchor lost): update the table", k)
+	// every recogniser still has the sites it was written for
+	for cl, min := range map[string]int{"template": 1, "regexp": 2, "template-exec": 1, "buffer-write": 1, "repanic": 1, "walk-default": 1, "unicode-class": 1, "grammar-result": 1, "action-helper": 1, "scc-key": 1} {
+		if classes[cl] < min {
+			r.Fatal("crash-site recogniser %q matched %d sites, fewer than the %d confirmed by hand (anchor lost)", cl, classes[cl], min)
 		}
 	}
 	r.MinRule("C13-a", 20)
@@ -150,14 +139,14 @@ func enumerateCrashSites(c *Ctx, g *load.G) []crashSite {
 						switch {
 						case cn == "panic":
 							np++
-							out = append(out, crashSite{Key: fmt.Sprintf("%s:panic#%d", qual, np), Pos: x.Pos(), Kind: "panic", What: "explicit panic", Func: fn, Pkg: pkgName})
+							out = append(out, crashSite{Key: fmt.Sprintf("%s:panic#%d", qual, np), Pos: x.Pos(), Kind: "panic", What: "explicit panic", Func: fn, Pkg: pkgName, Suffix: suffix, Node: x, Fd: fd})
 						case cn == "template.Must" || cn == "regexp.MustCompile":
 							nm[cn]++
 							k := fmt.Sprintf("%s:must:%s", qual, cn)
 							if cn == "regexp.MustCompile" {
 								k += fmt.Sprintf("#%d", nm[cn])
 							}
-							out = append(out, crashSite{Key: k, Pos: x.Pos(), Kind: "must", What: cn + " panics on error", Func: fn, Pkg: pkgName})
+							out = append(out, crashSite{Key: k, Pos: x.Pos(), Kind: "must", What: cn + " panics on error", Func: fn, Pkg: pkgName, Suffix: suffix, Node: x, Fd: fd})
 						}
 					case *ast.TypeAssertExpr:
 						if x.Type == nil {
@@ -165,7 +154,7 @@ func enumerateCrashSites(c *Ctx, g *load.G) []crashSite {
 						}
 						// comma-ok form?
 						if !commaOK(fd, x) {
-							out = append(out, crashSite{Key: qual + ":assert:" + nospace(x), Pos: x.Pos(), Kind: "assert", What: "unchecked type assertion " + nospace(x), Func: fn, Pkg: pkgName})
+							out = append(out, crashSite{Key: qual + ":assert:" + nospace(x), Pos: x.Pos(), Kind: "assert", What: "unchecked type assertion " + nospace(x), Func: fn, Pkg: pkgName, Suffix: suffix, Node: x, Fd: fd})
 						}
 					case *ast.SelectorExpr:
 						// M[k].f with pointer-valued map
@@ -182,7 +171,7 @@ func enumerateCrashSites(c *Ctx, g *load.G) []crashSite {
 						}
 						nm["md:"+nospace(ix)]++
 						k := qual + ":mapderef:" + nospace(ix)
-						out = append(out, crashSite{Key: k, Pos: x.Pos(), Kind: "mapderef", What: "field access on the result of map lookup " + nospace(ix) + " (nil when the key is absent)", Func: fn, Pkg: pkgName})
+						out = append(out, crashSite{Key: k, Pos: x.Pos(), Kind: "mapderef", What: "field access on the result of map lookup " + nospace(ix) + " (nil when the key is absent)", Func: fn, Pkg: pkgName, Suffix: suffix, Node: x, Fd: fd})
 					}
 					return true
 				})
@@ -404,61 +393,12 @@ func c13SideConditions(c *Ctx, g *load.G) map[string]string {
 	if mg == nil {
 		out["firstgraph"] = "MakeFirstGraph not found"
 	} else {
-		okEdges, okEmpty := false, false
-		nOther := 0
-		gvar := ""
-		if rets := returnsOf(mg); len(rets) == 1 && len(rets[0].Results) == 1 {
-			gvar = nospace(rets[0].Results[0])
+		if ew, sw := c.firstGraphShape(); ew != "" || sw != "" {
+			out["firstgraph"] = "MakeFirstGraph no longer has the shape 'edges for rules, empty sets for other vertices': " + strings.TrimPrefix(ew+"; "+sw, "; ")
 		}
-		rulesParam := firstParam(mg)
-		ast.Inspect(mg.Body, func(n ast.Node) bool {
-			as, ok := n.(*ast.AssignStmt)
-			if !ok || gvar == "" || !strings.HasPrefix(nospace(as.Lhs[0]), gvar+"[") {
-				return true
-			}
-			ix, ok := as.Lhs[0].(*ast.IndexExpr)
-			if !ok {
-				return true
-			}
-			key := nospace(ix.Index)
-			// (a) the key is the iteration key of a range over the rules parameter: out-edges only for defined rules
-			isRuleKey := false
-			ast.Inspect(mg.Body, func(m ast.Node) bool {
-				if rs, ok := m.(*ast.RangeStmt); ok && rs.Key != nil && nospace(rs.Key) == key && nospace(rs.X) == rulesParam && rs.Pos() <= as.Pos() && as.Pos() < rs.End() {
-					isRuleKey = true
-				}
-				return true
-			})
-			rhs := nospace(as.Rhs[0])
-			switch {
-			case isRuleKey:
-				okEdges = true
-			case strings.HasPrefix(rhs, "make(map[string]struct{}") || rhs == "map[string]struct{}{}":
-				okEmpty = true
-			default:
-				nOther++
-			}
-			return true
-		})
-		if !(okEdges && okEmpty && nOther == 0) {
-			out["firstgraph"] = fmt.Sprintf("MakeFirstGraph no longer has the shape 'edges for rules, empty sets for other vertices' (edges-for-rule-keys=%t empty-sets=%t other stores=%d)", okEdges, okEmpty, nOther)
-		}
-		// the SCC-size / self-loop guards around the dereferences
-		cl := load.FuncDecl(g.Pkg("builder"), "", "ComputeLeftRecursives")
-		if cl != nil {
-			ast.Inspect(cl.Body, func(n ast.Node) bool {
-				sel, ok := n.(*ast.SelectorExpr)
-				if !ok {
-					return true
-				}
-				if ix, ok := sel.X.(*ast.IndexExpr); ok && nospace(ix.X) == "rules" {
-					gs := strings.Join(guardsOf(cl.Body, sel.Pos()), ";")
-					if !(strings.HasPrefix(gs, "len(scc)>1") || strings.HasPrefix(gs, "len(scc)<=1;ok")) {
-						out["firstgraph"] = "dereference of " + nospace(ix) + " under [" + gs + "], expected under len(scc)>1 or the self-loop test"
-					}
-				}
-				return true
-			})
+		// the guards around the dereferences of looked-up rules: decided on the paths of ComputeLeftRecursives
+		if _, why := c.sccDerefs(); why != "" {
+			out["firstgraph"] = why
 		}
 	}
 	// unicode-classes
@@ -698,6 +638,7 @@ func c13Exit(c *Ctx, g *load.G) {
 		}
 		return -1, true
 	}
+	usageExit := map[string]bool{}
 	endsInNonZeroExit := func(b *ast.BlockStmt) bool {
 		if len(b.List) == 0 {
 			return false
@@ -713,7 +654,7 @@ func c13Exit(c *Ctx, g *load.G) {
 		if v, ok := exitArg(ce); ok && v > 0 {
 			return true
 		}
-		if callName(ce) == "argError" && len(ce.Args) >= 1 {
+		if usageExit[callName(ce)] && len(ce.Args) >= 1 {
 			if tv, ok := info.Types[ce.Args[0]]; ok && tv.Value != nil {
 				if v, ok := constant.Int64Val(tv.Value); ok && v > 0 {
 					return true
@@ -722,13 +663,43 @@ func c13Exit(c *Ctx, g *load.G) {
 		}
 		return false
 	}
-	// every function of main.go (not pigeon.go)
-	for _, fn := range []string{"main", "input", "output", "argError"} {
-		fd := load.FuncDecl(root, "", fn)
-		if fd == nil {
-			r.Fatal("main.%s not found", fn)
+	// every hand-written function of the command (not the generated front-end, not its grammar actions)
+	var cmdFuncs []*ast.FuncDecl
+	for i, f := range root.Syntax {
+		if i < len(root.CompiledGoFiles) && (strings.HasSuffix(root.CompiledGoFiles[i], "/pigeon.go") || strings.HasSuffix(root.CompiledGoFiles[i], "_test.go")) {
 			continue
 		}
+		for _, d := range f.Decls {
+			if fd, ok := d.(*ast.FuncDecl); ok && fd.Body != nil && fd.Recv == nil {
+				cmdFuncs = append(cmdFuncs, fd)
+			}
+		}
+	}
+	// ... that main reaches through hand-written code (helpers of the grammar actions return their errors to the parser)
+	reach := map[*ast.FuncDecl]bool{}
+	for _, h := range withHelpers(root, mf, "ParseReader", "Parse", "ParseFile") {
+		reach[h] = true
+	}
+	var kept []*ast.FuncDecl
+	for _, fd := range cmdFuncs {
+		if reach[fd] {
+			kept = append(kept, fd)
+		}
+	}
+	cmdFuncs = kept
+	sort.Slice(cmdFuncs, func(i, j int) bool { return cmdFuncs[i].Name.Name < cmdFuncs[j].Name.Name })
+	// the wrapper that reports a usage error and exits with the status it is given
+	for _, fd := range cmdFuncs {
+		if ps := paramNames(fd); len(ps) >= 1 {
+			for _, ce := range callsIn(fd.Body) {
+				if callName(ce) == "exit" && len(ce.Args) == 1 && nospace(ce.Args[0]) == ps[0] && len(guardsOf(fd.Body, ce.Pos())) == 0 {
+					usageExit[fd.Name.Name] = true
+				}
+			}
+		}
+	}
+	for _, fd := range cmdFuncs {
+		fn := fd.Name.Name
 		n := 0
 		var visit func(list []ast.Stmt)
 		visit = func(list []ast.Stmt) {
@@ -787,18 +758,15 @@ func c13Exit(c *Ctx, g *load.G) {
 	// all exit() calls: constants; zero only under the help flags
 	var bad []string
 	nExit := 0
-	for _, fn := range []string{"main", "input", "output", "argError"} {
-		fd := load.FuncDecl(root, "", fn)
-		if fd == nil {
-			continue
-		}
+	for _, fd := range cmdFuncs {
+		fn := fd.Name.Name
 		for _, ce := range callsIn(fd.Body) {
 			v, ok := exitArg(ce)
 			if !ok {
 				continue
 			}
 			nExit++
-			if fn == "argError" {
+			if usageExit[fn] && len(paramNames(fd)) > 0 && nospace(ce.Args[0]) == paramNames(fd)[0] {
 				continue // exit(exitCode): argument checked at the call sites
 			}
 			gs := strings.Join(guardsOf(fd.Body, ce.Pos()), ";")
